@@ -49,6 +49,7 @@ type NodeSpec struct {
 	// PipeCap >= 0: streamed output comes from a Pipe(cap) fed by a producer goroutine; -1: array-backed
 	PipeCap int        `json:"pipe_cap"`
 	Lazy    bool       `json:"lazy,omitempty"` // Transform form returns at once and works in a goroutine
+	Pad     int        `json:"pad,omitempty"`  // extra (empty) chunks appended to the streamed output
 	Sub     *GraphSpec `json:"sub,omitempty"`
 
 	InputKey   string `json:"input_key,omitempty"`
